@@ -4,6 +4,9 @@ import ModbusVerif.Spec.Layout
 import ModbusVerif.Spec.ServerSpec
 import ModbusVerif.Model.Config
 import ModbusVerif.Model.Timing
+import ModbusVerif.Model.Role
+import ModbusVerif.Spec.RoleSpec
+import ModbusVerif.Model.Lifecycle
 /-
   mbmodel: line protocol. One operation per input line, one canonical output line.
   Unknown or malformed lines print `bad-op` (never a default).
@@ -214,6 +217,36 @@ def step (line : String) : String :=
       toString ((List.range (hi - lo)).foldl (fun acc i =>
         ((acc * 1000003 + Timing.charTime (lo + i)) % 2305843009213693951 * 1000003 + Timing.t35 (lo + i)) % 2305843009213693951) 7)
     | _, _ => "bad-op"
+  | ["role", exts] =>
+    -- extensions separated by ',', each `R:<hex>` (role OID) or `O:<hex>` (another OID)
+    let parse (t : String) : Option Role.Ext :=
+      match t.splitOn ":" with
+      | ["R", v] => (unhex v).map fun b => { id := Role.modbusRoleOID, value := b }
+      | ["O", v] => (unhex v).map fun b => { id := [2, 5, 29, 17], value := b }
+      | _ => none
+    match (if exts = "none" then some [] else (exts.splitOn ",").mapM parse) with
+    | some l =>
+      match Role.extractRoleChecked l with
+      | .ok r => hex r ++ " spec=" ++ hex (Spec.roleOf l)
+      | .error _ => "panic spec=" ++ hex (Spec.roleOf l)
+    | none => "bad-op"
+  | ["utf8", data] =>
+    match unhex data with
+    | some d => (if Role.utf8Valid d then "1" else "0") ++ " spec=" ++ (if Spec.validUtf8 d then "1" else "0")
+    | none => "bad-op"
+  | "life" :: maxc :: fresh :: steps =>
+    -- life <maxClients> <freshId> step;step;…  -> state after the steps | enabled flags | steps enabled now
+    match maxc.toNat?, fresh.toNat? with
+    | some m, some f =>
+      let toks := (" ".intercalate steps).splitOn ";" |>.filter (· ≠ "")
+      match toks.mapM (fun t => Lifecycle.parseStep ((t.trimAscii.toString.splitOn " ").filter (· ≠ ""))) with
+      | some sts =>
+        let (s, flags) := sts.foldl (fun (acc : Lifecycle.State × List String) st =>
+          (Lifecycle.step acc.1 st, acc.2 ++ [if Lifecycle.enabled acc.1 st then "1" else "0"])) (Lifecycle.init m, [])
+        Lifecycle.showState s ++ " | en=" ++ String.join flags ++ " | next=" ++
+          ";".intercalate ((Lifecycle.enabledSteps s f).map Lifecycle.Step.show)
+      | none => "bad-op"
+    | _, _ => "bad-op"
   | ["crc", data] =>
     match unhex data with
     | some d => hex (Crc.crc16 d) ++ " ref=" ++ hex (le16 (Crc.refCrc d))
@@ -228,6 +261,7 @@ partial def loop (h : IO.FS.Stream) (out : IO.FS.Stream) : IO Unit := do
   let line ← h.getLine
   if line.isEmpty then return ()
   out.putStrLn (step line)
+  out.flush
   loop h out
 
 end Modbus.Driver
